@@ -257,6 +257,9 @@ func registerTimeIntrinsics(e *Engine) {
 	}
 	in["time.Sleep"] = func(fr *frame, args []value) value {
 		r := fr.r
+		if d, ok := args[0].(int64); ok && d <= 0 {
+			return nil // time.Sleep returns immediately for a non-positive duration
+		}
 		t := r.newTimer(args[0], false, nil)
 		th := r.curThread(fr)
 		r.sched.block(fr, th, func() bool { return !t.active }, "time.Sleep at "+fr.pos())
